@@ -25,13 +25,13 @@ NAN = float('nan')
 def rich_tables(variant):
     """(L, R, lvals, rvals): the same rows in two physical layouts."""
     lvals = ['a b c d e', 'a b', 'a  a b', '', None, ' ', 'c d', 'a b', 'e', 'b a c']
-    rvals = ['b a', '', 'a b c', None, 'c', 'd c e', 'a a', ' ', 'e d c b a']
+    rvals = ['b a', '', 'a b c', None, 'c', 'd c e', 'a a', ' ', 'e d c b a', '  ']
     if variant == 1:
         lvals = [NAN if v is None else v for v in lvals]
         rvals = [NAN if v is None else v for v in rvals]
     n, m = len(lvals), len(rvals)
     lkeys = [50 - 7 * i for i in range(n)] if variant == 0 else ['k%02d' % ((i * 7) % n) for i in range(n)]
-    rkeys = ['r%02d' % ((i * 4) % m) for i in range(m)] if variant == 0 else [3 * i - 4 for i in range(m)]
+    rkeys = ['r%02d' % ((i * 3) % m) for i in range(m)] if variant == 0 else [3 * i - 4 for i in range(m)]
     L = pd.DataFrame({'x_id': pd.Series(lkeys, dtype=object if variant else None),
                       's': pd.Series(lvals, dtype=object),
                       'x': pd.Series([None if i % 3 == 0 else 'x%d' % i for i in range(n)], dtype=object),
@@ -50,6 +50,26 @@ def rich_tables(variant):
 
 ATTRS = [(None, None), (['x', 's'], ['y']), (['f', 'x_id', 'x', 'x'], ['t', 'y', 'y_id'])]
 PREFIXES = [('l_', 'r_'), ('A.', '')]
+
+
+class quiet(object):
+    """Discard what progress bars print (show_progress=True runs)."""
+
+    def __init__(self, active):
+        self.active = active
+
+    def __enter__(self):
+        if self.active:
+            import io
+            import sys
+            self.saved = (sys.stdout, sys.stderr)
+            sys.stdout, sys.stderr = io.StringIO(), io.StringIO()
+
+    def __exit__(self, *a):
+        if self.active:
+            import sys
+            sys.stdout, sys.stderr = self.saved
+        return False
 
 
 def dedup(attrs, key):
@@ -116,22 +136,25 @@ def w_join_config(job):
                         for (lo, ro) in ATTRS:
                             for (lp, rp) in PREFIXES:
                                 for score in (True, False):
-                                    for nj in job['n_jobs']:
+                                  for nj in job['n_jobs']:
+                                    for sp in ((False, True) if nj == 1 else (False,)):
                                         cfg = 'tok=%s t=%r op=%s allow_empty=%s allow_missing=%s l_out=%s r_out=%s ' \
-                                              'prefixes=%r score=%s n_jobs=%d' % (spec, t, op, ae, am, lo, ro, (lp, rp), score, nj)
+                                              'prefixes=%r score=%s n_jobs=%d show_progress=%s' % (
+                                                  spec, t, op, ae, am, lo, ro, (lp, rp), score, nj, sp)
                                         tok = QgramTokenizer(qval=spec[1], padding=spec[2], return_set=spec[3]) \
                                             if spec[0] == 'qg' else make_tokenizer(spec)
                                         sched.CTL.reset()
                                         fn = join_fn(meas)
-                                        if edit:
-                                            out = lib(fn, L, R, 'x_id', 'y_id', 's', 't', t, op, am, lo, ro, lp, rp,
-                                                      score, nj, False, tok)
-                                        elif meas == 'OVERLAP':
-                                            out = lib(fn, L, R, 'x_id', 'y_id', 's', 't', tok, t, op, am, lo, ro, lp, rp,
-                                                      score, nj, False)
-                                        else:
-                                            out = lib(fn, L, R, 'x_id', 'y_id', 's', 't', tok, t, op, ae, am, lo, ro,
-                                                      lp, rp, score, nj, False)
+                                        with quiet(sp):
+                                            if edit:
+                                                out = lib(fn, L, R, 'x_id', 'y_id', 's', 't', t, op, am, lo, ro, lp, rp,
+                                                          score, nj, sp, tok)
+                                            elif meas == 'OVERLAP':
+                                                out = lib(fn, L, R, 'x_id', 'y_id', 's', 't', tok, t, op, am, lo, ro, lp,
+                                                          rp, score, nj, sp)
+                                            else:
+                                                out = lib(fn, L, R, 'x_id', 'y_id', 's', 't', tok, t, op, ae, am, lo, ro,
+                                                          lp, rp, score, nj, sp)
                                         calls += 1
                                         cases += 1
                                         la, ra = dedup(lo, 'x_id'), dedup(ro, 'y_id')
@@ -160,8 +183,9 @@ def w_join_config(job):
                                             if cls is None:
                                                 if ltok[i] is not None and rtok[j] is not None and \
                                                         (not ltok[i]) != (not rtok[j]):
-                                                    report('C09', cfg, 'pair with exactly one empty side returned: (%r, %r)'
-                                                           % (lvals[i], rvals[j]))
+                                                    for tag in ('C09', 'C02'):
+                                                        report(tag, cfg, 'pair with exactly one empty side returned: '
+                                                               '(%r, %r), score %r' % (lvals[i], rvals[j], sc))
                                                 else:
                                                     report('C03' if edit else 'C02', cfg,
                                                            'non-qualifying pair (%r, %r) returned, score %r' % (
@@ -213,7 +237,7 @@ def config_jobs(props, quick=True):
             toks = [['ws', True], ['ws', False]]
         else:
             ths, ops = [0.4, 0.5, 2.0 / 3, 1.0], ['>=', '>', '=']
-            toks = [['ws', True], ['ws', False], ['qg', 2, True, True]]
+            toks = [['ws', True], ['ws', False], ['qg', 2, True, True], ['qg', 2, False, False]]
         for variant in (0, 1):
             for t in ths:
                 for tk in toks:
@@ -226,8 +250,8 @@ def config_layer(props, quick=True):
     from mcx.engine import Layer
     return Layer('config-cross', 'checks.configx:w_join_config', config_jobs(props, quick),
                  'every combination of threshold x operator x allow_empty x allow_missing x output attributes x '
-                 'prefixes x out_sim_score x n_jobs in {1,2,4} x tokenizer (set / bag / q-gram) for each of the six '
-                 'joins on two layouts of feature-rich 10x9 tables (empty, blank, missing values as None / NaN, '
+                 'prefixes x out_sim_score x n_jobs in {1,2,4} (show_progress on and off for n_jobs=1) x tokenizer (set / bag / padded and unpadded q-grams) for each of the six '
+                 'joins on two layouts of feature-rich 10x10 tables (empty, blank, missing values as None / NaN, '
                  'repeated tokens, duplicate values, unsorted keys, key columns at different positions, repeated '
                  'index labels, attribute columns with missing values, longest record first); complete output '
                  'compared with the reference model, discrepancies attributed to the property they break',
@@ -283,15 +307,17 @@ def w_filter_config(job):
                             nocommon.add((i, j))
                 for (lo, ro) in ATTRS:
                     for (lp, rp) in PREFIXES[:1] if (lo is None and not am) else PREFIXES:
-                        for nj in job['n_jobs']:
-                            cfg = '%s t=%r op=%s allow_empty=%s allow_missing=%s l_out=%s r_out=%s prefixes=%r n_jobs=%d' % (
-                                meas, t, op, ae, am, lo, ro, (lp, rp), nj)
+                      for nj in job['n_jobs']:
+                        for sp in ((False, True) if nj == 1 else (False,)):
+                            cfg = '%s t=%r op=%s allow_empty=%s allow_missing=%s l_out=%s r_out=%s prefixes=%r n_jobs=%d ' \
+                                  'show_progress=%s' % (meas, t, op, ae, am, lo, ro, (lp, rp), nj, sp)
                             f = make_filter(name, make_tokenizer(['ws', True]), meas, t, ae, am, op)
                             sched.CTL.reset()
-                            if name == 'Overlap':
-                                out = lib(f.filter_tables, L, R, 'x_id', 'y_id', 's', 't', lo, ro, lp, rp, True, nj, False)
-                            else:
-                                out = lib(f.filter_tables, L, R, 'x_id', 'y_id', 's', 't', lo, ro, lp, rp, nj, False)
+                            with quiet(sp):
+                                if name == 'Overlap':
+                                    out = lib(f.filter_tables, L, R, 'x_id', 'y_id', 's', 't', lo, ro, lp, rp, True, nj, sp)
+                                else:
+                                    out = lib(f.filter_tables, L, R, 'x_id', 'y_id', 's', 't', lo, ro, lp, rp, nj, sp)
                             calls += 1
                             cases += 1
                             la, ra = dedup(lo, 'x_id'), dedup(ro, 'y_id')
